@@ -320,7 +320,7 @@ def main(argv):
     rep.obligation('every nondeterminism site of the source tree is classified (%d sites)' % len(keys), not new_sites)
 
     # ---- Coq: models and proofs first, then the statements (which include every_site_accounted)
-    okm, mlog = vlib.coq_build(['sys/EngineProofs.vo', 'sys/MapRangeProofs.vo', 'sys/Handoff.vo', 'gen/MapRanges.vo'])
+    okm, mlog = vlib.coq_build(['sys/EngineProofs.vo', 'sys/EngineConserve.vo', 'sys/MapRangeProofs.vo', 'sys/Handoff.vo', 'gen/MapRanges.vo'])
     if not okm:
         rep.obligation('coq build (models, proofs)', False)
         rep.violation({'broken': 'Coq development for C05 does not compile', 'log': mlog[-4000:]}, nofail=True)
@@ -468,7 +468,10 @@ def main(argv):
                 witness['note'] = 'runs that hit the timeout are the drain hang of property C12 (lost wake-up), not counted here'
     t_sim = time.time() - t_sim
     if handoff_seen:
-        rep.known_finding(KNOWN_HANDOFF + '; observed in: ' + ', '.join(sorted({h['workload'] for h in handoff_seen})))
+        rep.known_finding('[handoff-race] ' + KNOWN_HANDOFF + '; observed in: ' + ', '.join(sorted({h['workload'] for h in handoff_seen})),
+                          key='handoff-race',
+                          replay_obj={'property': PROP, 'kind': 'handoff', 'what': KNOWN_HANDOFF, 'observations': handoff_seen[:3],
+                                      'note': 'known finding C05/handoff-race is not listed (status open) in known_findings.json'})
 
     # ---- a site nobody classified: after trying to exhibit a difference, report it
     if new_sites and not rep.violations:
